@@ -158,3 +158,28 @@ Theorem C05_source_va_read : forall rf rp fo po k sx m h, Forall byte sx -> (for
      (st < 0 /\ Imp.lookup "*handle" (vars fin) = Some VNull /\ exists j, Imp.lookup cells_var (vars fin) = Some (VHeap (h ++ nones j)))).
 Proof. exact va_read_source. Qed.
 Print Assumptions C05_source_va_read.
+
+(* the translated programs run (interpreter of ImpCall.v on Gen/Prog.v, evaluated by the kernel's virtual machine): a plain array
+   of two ints followed by one more byte, and a run-length array of strings - status, handle, cell heap, memory, rest of the
+   stream; the hypotheses of the theorems above are met by concrete calls, and the outcomes are the ones they state *)
+Definition c05_show (o : outcome) :=
+  match o with
+  | OReturn v s => (Some v, Imp.lookup "*handle" (vars s), Imp.lookup cells_var (vars s), inb s, Imp.lookup strm_var (vars s))
+  | _ => (None, None, None, [], None)
+  end.
+Example C05_source_va_read_runs_plain :
+  c05_show (callC prog_env 400 prog_sbdf_va_read [tok; tok] [] (-1) [1;2; 2;0;0;0; 5;0;0;0; 7;0;0;0; 99] []) =
+  (Some (VInt 0), Some (VCell 0 0), Some (VHeap [Some [VInt 2; VInt 1; VInt 0; VCell 1 0; VInt 0]; Some [VInt 2; VInt 2; VPtr RIn 0]]),
+   [5; 0; 0; 0; 7; 0; 0; 0], Some (VBytes [99])).
+Proof. vm_compute. reflexivity. Qed.
+Example C05_source_va_read_runs_rle :
+  c05_show (callC prog_env 2000 prog_sbdf_va_read [tok; tok] [] (-1) [2;10; 3;0;0;0;  1;0;0;0; 2;  1;0;0;0; 3;0;0;0; 2;97;98; 77] []) =
+  (Some (VInt 0), Some (VCell 0 0),
+   Some (VHeap [Some [VInt 10; VInt 2; VInt 3; VCell 1 0; VCell 2 0]; Some [VInt 254; VInt 1; VPtr RIn 0]; Some [VInt 10; VInt 1; VCell 3 0]; Some [VPtr RIn 5]]),
+   [2; 3; 0; 0; 0; 97; 98; 0], Some (VBytes [77])).
+Proof. vm_compute. reflexivity. Qed.
+(* truncated inside the second element of a packed string array: everything built is released *)
+Example C05_source_va_read_runs_truncated :
+  c05_show (callC prog_env 2000 prog_sbdf_va_read [tok; tok] [] (-1) [1;10; 2;0;0;0; 9;0;0;0; 2;97;98; 5;99] []) =
+  (Some (VInt SBDF_ERROR_IO), Some VNull, Some (VHeap [None; None; None]), [3; 0; 0; 0; 97; 98; 0; 6; 0; 0; 0; 99; 205; 205; 205; 205; 0], Some (VBytes [])).
+Proof. vm_compute. reflexivity. Qed.
